@@ -66,6 +66,7 @@ type efFinding struct {
 }
 
 type EF struct {
+	sentinels map[*ssa.Global]bool
 	c          *Ctx
 	fns        []*ssa.Function
 	summary    map[*ssa.Function][]oset
@@ -958,7 +959,15 @@ func (r *efRun) exit(p *PState, ins ssa.Instruction) {
 				}
 			}
 			retNonNil := retErr != nil && p.NonNil(retErr)
-			if retNonNil && (!strict || s.other[v]) {
+			// a control-flow sentinel (a package-level error that callers compare against and
+			// handle, e.g. errNoSpace => start the next block) does not report the failure
+			sentinel := false
+			if retNonNil {
+				if g := p.EqGlobal(retErr); g != nil && e.isSentinel(g) {
+					sentinel = true
+				}
+			}
+			if retNonNil && !sentinel && (!strict || s.other[v]) {
 				continue
 			}
 			var sites []string
@@ -971,6 +980,8 @@ func (r *efRun) exit(p *PState, ins ssa.Instruction) {
 			if len(o) == 0 {
 				kind = "EF-DROP"
 				msg = fmt.Sprintf("result of fallible %s is not handled on this path", calleeNameOfValue(v))
+			} else if sentinel {
+				msg = fmt.Sprintf("error of %s may be non-nil here but the function returns the control-flow sentinel %s, which callers handle as a normal condition", calleeNameOfValue(v), p.EqGlobal(retErr).Name())
 			} else if strict && retNonNil {
 				kind = "EF-IO-REPLACED"
 				msg = fmt.Sprintf("source error of %s is replaced by an unrelated error", calleeNameOfValue(v))
@@ -1193,4 +1204,30 @@ func (e *EF) Origins(in map[*ssa.Function]bool) (read, write []string) {
 	sort.Strings(read)
 	sort.Strings(write)
 	return
+}
+
+// isSentinel: the package-level error variable is compared with == / != somewhere in the
+// module and not with nil only: callers branch on it.
+func (e *EF) isSentinel(g *ssa.Global) bool {
+	if e.sentinels == nil {
+		e.sentinels = map[*ssa.Global]bool{}
+		for _, fn := range e.c.modFuncs {
+			for _, b := range fn.Blocks {
+				for _, ins := range b.Instrs {
+					bo, ok := ins.(*ssa.BinOp)
+					if !ok || (bo.Op != token.EQL && bo.Op != token.NEQ) || !isErrType(bo.X.Type()) {
+						continue
+					}
+					for _, o := range []ssa.Value{bo.X, bo.Y} {
+						if u, ok := o.(*ssa.UnOp); ok && u.Op == token.MUL {
+							if gg, ok := u.X.(*ssa.Global); ok {
+								e.sentinels[gg] = true
+							}
+						}
+					}
+				}
+			}
+		}
+	}
+	return e.sentinels[g]
 }
